@@ -880,6 +880,8 @@ func verifDriverMain() {
 				continue
 			}
 			reply("ok " + r.status())
+		case w[0] == "proxyrelay" || w[0] == "orburst":
+			reply(verifTCPCommand(w))
 		case w[0] == "log.run":
 			reply(verifLogRun(w))
 		case w[0] == "glue.run":
